@@ -4,6 +4,7 @@ import (
 	"context"
 	"fmt"
 	"io"
+	stdlog "log"
 	"os"
 	"path/filepath"
 	"sort"
@@ -13,6 +14,10 @@ import (
 
 	"github.com/AliceO2Group/Control/apricot"
 	"github.com/AliceO2Group/Control/apricot/local"
+	"time"
+
+	"github.com/AliceO2Group/Control/common/event/topic"
+	evpb "github.com/AliceO2Group/Control/common/protos"
 	"github.com/AliceO2Group/Control/core"
 	pb "github.com/AliceO2Group/Control/core/protos"
 	"github.com/AliceO2Group/Control/core/the"
@@ -87,6 +92,7 @@ func ResetStore() {
 
 // GlobalSetup prepares viper, the configuration store and the repository once per process.
 func GlobalSetup(wfs ...WorkflowSpec) {
+	stdlog.SetOutput(io.Discard)
 	if os.Getenv("VERIF_LOG") == "" {
 		logrus.SetOutput(io.Discard)
 		logrus.SetLevel(logrus.PanicLevel)
@@ -118,7 +124,9 @@ func GlobalSetup(wfs ...WorkflowSpec) {
 	viper.Set("mesosFrameworkUser", "root")
 	viper.Set("mesosFrameworkRole", "*")
 	viper.Set("reuseUnlockedTasks", false)
-	viper.Set("integrationPlugins", []string{})
+	registerPlugin()
+	viper.Set("integrationPlugins", []string{"sim"})
+	viper.Set("simEndpoint", "verif://sim")
 	ResetStore()
 	svc, ok := apricot.Instance().(*local.Service)
 	if !ok {
@@ -187,11 +195,31 @@ func writeClass(t TaskSpec) {
 	os.WriteFile(filepath.Join(d, "repo", "tasks", t.Class+".yaml"), []byte(b.String()), 0o644)
 }
 
+// EnvEvent is one captured environment event (published state reports).
+type EnvEvent struct {
+	Env, State, Transition, Step, Message, Error string
+}
+
+type capWriter struct{ w *World }
+
+func (c *capWriter) WriteEvent(e interface{}) { c.WriteEventWithTimestamp(e, time.Time{}) }
+func (c *capWriter) WriteEventWithTimestamp(e interface{}, _ time.Time) {
+	switch ev := e.(type) {
+	case *evpb.Ev_EnvironmentEvent:
+		c.w.EnvEvents = append(c.w.EnvEvents, EnvEvent{ev.EnvironmentId, ev.State, ev.Transition, ev.TransitionStep, ev.Message, ev.Error})
+	case *evpb.Ev_RunEvent:
+		c.w.RunEvents = append(c.w.RunEvents, ev)
+	}
+}
+func (c *capWriter) Close() {}
+
 // World is one execution's closed system.
 type World struct {
 	M    *Master
 	Core *core.VerifCore
 	Life int
+	EnvEvents []EnvEvent
+	RunEvents []*evpb.Ev_RunEvent
 }
 
 // NewWorld starts a core (life 1) on top of master m. Call inside a controlled execution.
@@ -204,6 +232,9 @@ func NewWorld(m *Master) *World {
 // StartCore starts a (new) core life.
 func (w *World) StartCore() {
 	the.ResetEventWritersForVerif()
+	the.SetEventWriterForVerif(topic.Environment, &capWriter{w})
+	the.SetEventWriterForVerif(topic.Run, &capWriter{w})
+	CallLog = nil
 	c, err := core.NewCoreForVerif(w.M)
 	if err != nil {
 		panic(err)
@@ -285,4 +316,13 @@ func (w *World) TaskOwners() map[string]string {
 		out[t.GetTaskId()] = t.OwnerForVerif()
 	}
 	return out
+}
+
+// InterComponent is the point policy of the whole-core harnesses (see DESIGN 2.1).
+func InterComponent(kind vrt.OpKind, site string) bool {
+	switch kind {
+	case vrt.OpLock, vrt.OpRLock:
+		return false
+	}
+	return true
 }
